@@ -37,7 +37,7 @@ static std::vector<CN> CM;                          // rows over (A, B, C, D)
 static std::vector<std::pair<int, int> > PAIRS;     // add_constraints({r1, r2})
 static const int MAXDIM = 4;
 static size_t NBASE = 0;                            // rows [0, NBASE) form the menu of the fresh / incremental explorations
-struct BoxedMenu { int param, box1, box2; std::vector<int> rows; };
+struct BoxedMenu { int param, box1, box2; std::vector<int> rows, extra; };
 static std::vector<BoxedMenu> BOXED;                // rows of the "boxed" one-shot family, appended to CM
 
 static void build_menus() {
@@ -87,6 +87,14 @@ static void build_menus() {
       if (CC[c] == 0 && KK[k] >= 0 && AB[i][0] >= 0 && AB[i][1] >= 0) continue;      // implied by non-negativity
       bm.rows.push_back((int)CM.size()); CM.push_back(mk(AB[i][0], AB[i][1], CC[c], KK[k]));
     }
+    // rows added AFTER a first solve by the "resolve" family: parameter-only rows (they empty the context of one branch of a
+    // decision node, which is then merged with its surviving child) and a few mixed rows
+    for (long k = 0; k <= 6; ++k) { bm.extra.push_back((int)CM.size()); CM.push_back(mk(0, 0, 1, k)); }          // p <= k
+    for (long k = 1; k <= 6; ++k) { bm.extra.push_back((int)CM.size()); CM.push_back(mk(0, 0, -1, -k)); }        // p >= k
+    bm.extra.push_back((int)CM.size()); CM.push_back(mk(1, 0, 0, -1));                                            // x >= 1
+    bm.extra.push_back((int)CM.size()); CM.push_back(mk(0, 1, 0, -1));                                            // y >= 1
+    bm.extra.push_back((int)CM.size()); CM.push_back(mk(1, 1, 1, 0));                                             // x + y >= p
+    bm.extra.push_back((int)CM.size()); CM.push_back(mk(-1, -1, -1, 3));                                          // x + y <= p + 3
     BOXED.push_back(bm);
   }
   PAIRS.push_back(std::make_pair(3, 4));     // B <= 2A <= B + 1
@@ -508,6 +516,26 @@ static std::string hang_trigger(const Data& d, int rc) {
   if (rc == 1092 && d.piv == 1) return "pivot_row_strategy_max_column";
   return "none";
 }
+// Runs body() in a forked child that then exits; returns 0, the terminating signal, or 1000 + exit status.
+static int isolated(const std::function<void()>& body) {
+  fflush(stdout); fflush(stderr);
+  pid_t pid = fork();
+  if (pid < 0) { perror("fork"); _exit(3); }
+  if (pid == 0) {
+    alarm(0);
+    prctl(PR_SET_PDEATHSIG, SIGKILL);
+    struct rlimit rl; rl.rlim_cur = rl.rlim_max = 0; setrlimit(RLIMIT_CORE, &rl);
+    int fd = open("/dev/null", O_WRONLY); if (fd >= 0) dup2(fd, 2);
+    watchdog(20.0);
+    try { body(); } catch (...) { _exit(78); }
+    _exit(0);
+  }
+  int st = 0;
+  while (waitpid(pid, &st, 0) < 0 && errno == EINTR) {}
+  if (WIFEXITED(st) && WEXITSTATUS(st) == 0) return 0;
+  if (WIFSIGNALED(st)) return WTERMSIG(st);
+  return 1000 + WEXITSTATUS(st);
+}
 // cooperative guard everywhere, hard guard in addition where needed
 static int run_solve_guarded(bool hard, const std::function<void()>& probe, const std::function<void()>& real, bool confirm) {
   if (hard) { count(CNT_SANDBOXED); int rc = sandbox(probe, confirm ? SANDBOX_S * 10 : SANDBOX_S); if (rc) return rc; }
@@ -618,11 +646,17 @@ struct Reporter {
   void viol(const std::string& site, const std::string& clause, const std::string& trig0, const std::string& obs, const std::string& exp, const std::string& detail = "") const {
     if (!live) return;
     std::string trig = !override_all.empty() ? override_all : (trig0 == "none" && !override_none.empty()) ? override_none : trig0;
+    // a malformed tree after a re-solve (artificial parameters used before / without their declaration) is never
+    // attributed to the state-based incremental findings
+    // (except to T2, whose very symptom is a stale artificial-parameter index in a node)
+    // -- this holds for the "used before / without its declaration" form; a node that mentions a problem VARIABLE (a stale
+    // index) also comes out of the unchanged library's heap-corrupting re-solves and stays attributed.
+    if (clause == "tree:malformed" && !first_solve && trig != "dimensions_added_to_tree_with_artificial_parameters" && obs.find("undeclared") != std::string::npos) trig = "none";
     count(CNT_VIOL);
     // one finding group for the incremental-update family: the sub-check that failed goes to the detail
     std::string st = site, cl = clause, det = detail;
     { size_t q = st.find("(incremental)"); if (q != std::string::npos) { st = st.substr(0, q); det = "INCREMENTAL ONLY: a fresh problem built from the same final data is right. " + det; } }
-    if (trig == "resolve_of_tree_with_decision_nodes" ||
+    if (trig == "resolve_of_tree_with_decision_nodes" || trig == "resolve_of_decision_node_declaring_artificial_parameters" ||
         trig == "pending_row_parameter_column_overwritten_after_nonbasic_variable" || trig == "dimensions_added_to_tree_with_artificial_parameters") {
       cl = "incremental:wrong-answer"; det = "failed check: " + clause + ". " + detail;
     }
@@ -693,7 +727,7 @@ static bool judge(const PIP& p, int status, const Data& d, const Reporter& rp, c
       Span s = span_tree(root, d, pv);
       count(CNT_SPANS); count(CNT_ARTPARAMS, s.arts); count(CNT_DECISIONS, s.depth - 1);
       if (!s.bottom) tree_bottom_everywhere = 0;
-      if (!s.defect.empty()) { clause[b] = "tree:malformed"; obs[b] = s.defect + " at " + val_str(d, pv); exp[b] = "well-formed path"; trig[b] = s.defect.find("undeclared") != std::string::npos ? "undeclared_artificial_parameter" : "none"; ++nbad; continue; }
+      if (!s.defect.empty()) { clause[b] = "tree:malformed"; obs[b] = s.defect + " at " + val_str(d, pv); exp[b] = "well-formed path"; trig[b] = (rp.first_solve && s.defect.find("undeclared") != std::string::npos) ? "undeclared_artificial_parameter" : "none"; ++nbad; continue; }
       if (s.bottom) {
         if (re.feasible) { clause[b] = "tree:bottom-on-feasible-valuation"; obs[b] = "_|_ at " + val_str(d, pv); exp[b] = "lexmin " + zvec_str(re.x); trig[b] = small_param_trigger(); ++nbad; }
         continue;
@@ -745,6 +779,17 @@ static BadList* BAD = 0;
 static bool is_bad(long long item, long long sub) { for (long long i = 0; i < BAD->n; ++i) if (BAD->item[i] == item && BAD->sub[i] == sub) return true; return false; }
 struct CrashInfo { volatile int mode, init, n, ops[12], trig; char desc[1500]; };     // trig: 0 none, 1 max_column, 2 re-solve over a tree
 static CrashInfo* CRASH = 0;
+// state predicates of the incremental findings <-> small codes published to the parent before a risky step
+static int trig_code(const std::string& t) {
+  if (t.empty()) return 0;
+  if (t[0] == 'p') return 2;
+  if (t[0] == 'd') return 3;
+  return t.find("declaring") != std::string::npos ? 6 : 4;
+}
+static std::string trig_name(int c) {
+  return c == 2 ? "pending_row_parameter_column_overwritten_after_nonbasic_variable" : c == 3 ? "dimensions_added_to_tree_with_artificial_parameters"
+       : c == 4 ? "resolve_of_tree_with_decision_nodes" : c == 6 ? "resolve_of_decision_node_declaring_artificial_parameters" : "none";
+}
 
 // ------------------------------------------------------------------ mode fresh
 struct Layout { int dim; unsigned params; int big; };
@@ -798,6 +843,91 @@ static void run_fresh_item(long long item, long long sub_start) {
     }
     if (!p->OK()) rp.viol("PIP_Problem::solve", "invariant:OK()", "none", "OK() false", "OK() true");
     judge(*p, st, d, rp, "PIP_Problem::solve");
+  }
+}
+
+// ------------------------------------------------------------------ mode resolve: structured incremental family
+// Base problems = the boxed one-shot problems whose solution tree has a DECISION node that declares an artificial
+// parameter above a node that declares one of its own (a cut generated before a parametric split); each is solved,
+// then each row of a small menu (parameter-only and mixed rows) is added to a copy and the copy is re-solved and judged
+// against the brute-force lexicographic minimum of the extended problem.
+static bool has_art_under_art_decision(const PPL::PIP_Tree_Node* n, bool above) {
+  if (n == 0) return false;
+  bool here = n->art_parameter_count() != 0;
+  if (here && above) return true;
+  const PPL::PIP_Decision_Node* dn = n->as_decision();
+  if (dn == 0) return false;
+  bool a = above || here;
+  return has_art_under_art_decision(dn->child_node(true), a) || has_art_under_art_decision(dn->child_node(false), a);
+}
+static std::string incremental_trigger(const PIP& p);
+static bool wrong_answers_explained_by_one_condition(const PPL::PIP_Tree_Node* root, const Data& d);
+static void run_resolve_item(long long item, long long sub_start) {
+  prctl(PR_SET_PDEATHSIG, SIGKILL); if (getppid() == 1) _exit(0);
+  long long only = pool().only_sub;
+  size_t lo = (size_t)item * FRESH_BATCH, hi = std::min(FRESH.size(), lo + FRESH_BATCH);
+  long long sub = 0;
+  for (size_t ci = lo; ci < hi; ++ci) for (int strat = 0; strat < NSTRAT; ++strat) {
+    const BoxedMenu& bm = BOXED[FRESH[ci].layout];
+    // sub-steps: 0 = first solve, 1 + e = re-solve with extra row e
+    long long base_sub = sub; sub += 1 + (long long)bm.extra.size();
+    if (only >= 0 && base_sub > only) return;
+    if (only >= 0 ? (only >= sub) : (sub_start >= sub)) continue;
+    if (ARGS.expired()) { count(CNT_SKIPPED); return; }
+    Data d = fresh_data(FRESH[ci], strat);
+    if (pool().worker_id >= 0) { CrashInfo& c = CRASH[pool().worker_id]; c.mode = 0; c.trig = 0; std::string dj = data_json(d); strncpy(c.desc, dj.c_str(), sizeof c.desc - 1); c.desc[sizeof c.desc - 1] = 0; }
+    pool().step(base_sub);
+    watchdog(20.0);
+    std::unique_ptr<PIP> p = build_fresh(d, true);
+    int st = 0;
+    int rc = run_solve_guarded(d.piv == 1, [&]() { std::unique_ptr<PIP> t = build_fresh(d, true); t->solve(); }, [&]() { st = p->solve() == PPL::OPTIMIZED_PIP_PROBLEM ? 1 : 0; }, false);
+    count(CNT_SOLVES); count(CNT_TRANS);
+    if (rc || st == 0) continue;                                   // first solves are judged by the boxed family
+    if (!has_art_under_art_decision(p->solution(), false)) continue;
+    count(CNT_STATES);
+    for (size_t e = 0; e < bm.extra.size(); ++e) {
+      long long my = base_sub + 1 + (long long)e;
+      if (!pool().want(my, sub_start)) continue;
+      if (is_bad(item, my)) continue;
+      Data d1 = d; d1.rows.push_back(bm.extra[e]);
+      std::string inj = J().str("mode", "resolve").raw("problem", data_json(d)).str("then", "solve(); add_constraint(" + CM[bm.extra[e]].str() + "); solve()").raw("final_data", data_json(d1)).done();
+      if (pool().worker_id >= 0) { CrashInfo& c = CRASH[pool().worker_id]; c.mode = 0; c.trig = 5; strncpy(c.desc, data_json(d1).c_str(), sizeof c.desc - 1); c.desc[sizeof c.desc - 1] = 0; }
+      pool().step(my);
+      watchdog(20.0);
+      std::unique_ptr<PIP> c(new PIP(*p));
+      c->add_constraint(CM[bm.extra[e]].ppl());
+      std::string it_trig = incremental_trigger(*c);
+      if (pool().worker_id >= 0) CRASH[pool().worker_id].trig = it_trig.empty() ? 5 : trig_code(it_trig);
+      // The re-solve runs in a forked child: in this family the unchanged library corrupts the heap (see T4), and the
+      // damage must not reach the cases that follow.  The child judges and reports; the parent only attributes its death.
+      count(CNT_SOLVES); count(CNT_TRANS); count(CNT_FRESH);
+      int died = isolated([&]() {
+        Reporter rp; rp.live = true; rp.input = inj; rp.first_solve = false;
+        int st1 = 0;
+        int rc1 = guarded([&]() { st1 = c->solve() == PPL::OPTIMIZED_PIP_PROBLEM ? 1 : 0; }, GUARD_S);
+        if (rc1) {
+          count(CNT_HANGS);
+          std::string cl = guard_clause(rc1), tr = hang_trigger(d1, rc1);
+          if (tr == "none" && !it_trig.empty()) { tr = it_trig; cl = cl == "hang" ? "incremental:hang" : "incremental:crash"; }
+          report_violation("PIP_Problem::solve", cl, tr, inj, guard_clause(rc1), "an answer");
+          return; }
+        if (!c->OK()) { rp.viol("PIP_Problem::solve", "invariant:OK()", it_trig.find("declaring") != std::string::npos ? it_trig : "none", "OK() false", "OK() true"); return; }
+        Reporter probe; probe.live = false; probe.first_solve = false;
+        if (!judge(*c, st1, d1, probe, "PIP_Problem::solve")) {
+          std::string t2 = it_trig;
+          if (t2 == "resolve_of_tree_with_decision_nodes" && st1 == 1 && !wrong_answers_explained_by_one_condition(c->solution(), d1)) t2 = "";
+          if (!t2.empty()) rp.override_all = t2;      // a state predicate of the tree being re-solved outranks the data-based triggers
+          judge(*c, st1, d1, rp, "PIP_Problem::solve");
+        }
+      });
+      if (died) {
+        count(CNT_HANGS);
+        bool hang = died == 1097 || died == SIGPROF || died == SIGVTALRM || died == SIGALRM;
+        std::string cl = hang ? "hang" : std::string("crash:") + signame(died), tr = "none";
+        if (!it_trig.empty()) { tr = it_trig; cl = hang ? "incremental:hang" : "incremental:crash"; }
+        if (violcap().admit("died|resolve|" + cl + tr)) report_violation("PIP_Problem::solve", cl, tr, inj, hang ? "hang (worker child ended itself in a loop without cancellation points)" : signame(died), "an answer");
+      }
+    }
   }
 }
 
@@ -905,6 +1035,13 @@ static std::string incremental_trigger(const PIP& p) {
       }
     }
   }
+  //  (T4) a decision node of the tree declares artificial parameters: re-solving it builds context matrices whose rows
+  //       are wider than the matrix says (compatibility_check then writes past the end of its index vectors: heap
+  //       corruption, valgrind-confirmed), so ANY symptom may follow, and not deterministically.
+  { std::function<bool(const PPL::PIP_Tree_Node*)> dn_art = [&](const PPL::PIP_Tree_Node* n) -> bool {
+      if (n == 0) return false; const PPL::PIP_Decision_Node* dn = n->as_decision(); if (dn == 0) return false;
+      return dn->art_parameter_count() != 0 || dn_art(dn->child_node(true)) || dn_art(dn->child_node(false)); };
+    if (dn_art(p.current_solution)) return "resolve_of_decision_node_declaring_artificial_parameters"; }
   //  (T3) none of the above, but the tree to be updated has decision nodes: the pending rows are pushed through
   //       PIP_Decision_Node::update_tableau / solve into sub-trees solved under different contexts (cause not isolated).
   if (p.current_solution->as_decision() != 0) return "resolve_of_tree_with_decision_nodes";
@@ -948,11 +1085,34 @@ static void run_incr_item(long long item, long long sub_start) {
             CrashInfo& ci = CRASH[pool().worker_id]; std::vector<int> h = history_ops(src.rec); h.push_back(opi);
             ci.mode = 1; ci.init = it.init; ci.n = (int)std::min<size_t>(h.size(), 12); for (int q = 0; q < ci.n; ++q) ci.ops[q] = h[q];
             { std::string t_ = solve_like(o.k) ? incremental_trigger(*src.p) : std::string();
-              ci.trig = t_.empty() ? (solve_like(o.k) && src.d.piv == 1 ? 1 : 0) : t_[0] == 'p' ? 2 : t_[0] == 'd' ? 3 : 4; }
+              ci.trig = t_.empty() ? (solve_like(o.k) && src.d.piv == 1 ? 1 : 0) : trig_code(t_); }
           }
           pool().step(my);
         }
         watchdog(20.0);
+        if (solve_like(o.k) && src.dirty) {
+          // (T4) states: the unchanged library corrupts the heap there; the transition runs in a forked child, which judges
+          // and reports, and the state is not expanded further
+          std::string t4 = incremental_trigger(*src.p);
+          if (t4.find("declaring") != std::string::npos) {
+            if (live) { count(CNT_TRANS); count(CNT_SOLVES); if (terminal) count(CNT_TERMINAL); }
+            Data dq = src.d;
+            std::string inj = input_json(it.init, src.rec, opi, dq);
+            int died = !live ? 0 : isolated([&]() {
+              std::unique_ptr<PIP> q(new PIP(*src.p)); Outcome oq;
+              int rcq = guarded([&]() { oq = apply(q, dq, o); }, GUARD_S);
+              if (rcq) { report_violation(op_site(o.k), guard_clause(rcq) == "hang" ? "incremental:hang" : "incremental:crash", t4, inj, guard_clause(rcq), "an answer"); return; }
+              Reporter rq; rq.live = true; rq.input = inj; rq.first_solve = false; rq.override_all = t4;
+              if (!q->OK()) { rq.viol(op_site(o.k), "invariant:OK()", t4, "OK() false", "OK() true"); return; }
+              judge(*q, oq.status, dq, rq, op_site(o.k));
+            });
+            if (died) {
+              bool hang = died == 1097 || died == SIGPROF || died == SIGVTALRM || died == SIGALRM;
+              if (violcap().admit("died|incr|" + t4)) report_violation(op_site(o.k), hang ? "incremental:hang" : "incremental:crash", t4, inj, hang ? "hang" : signame(died), "an answer");
+            }
+            continue;
+          }
+        }
         std::unique_ptr<PIP> c(new PIP(*src.p));
         Data d1 = src.d;
         Outcome out;
@@ -977,7 +1137,9 @@ static void run_incr_item(long long item, long long sub_start) {
               std::unique_ptr<PIP> q(new PIP(*src.p)); Data dq = src.d;
               int rc2 = run_solve_guarded(src.d.piv == 1, [&]() { std::unique_ptr<PIP> t(new PIP(*src.p)); Data dt = src.d; apply(t, dt, o); }, [&]() { apply(q, dq, o); }, true);
               if (rc2 && trig == "none") trig = hang_trigger(d1, rc2);
-              if (rc2) report_violation(op_site(o.k), guard_clause(rc2), trig, input_json(it.init, src.rec, opi, d1), guard_clause(rc2) + " (no answer within " + std::to_string(src.d.piv == 1 ? SANDBOX_S * 10 : CONFIRM_S) + " s CPU, alone)", "an answer");
+              std::string cl2 = guard_clause(rc2);
+              if (rc2 && trig == "none") { std::string t_ = incremental_trigger(*src.p); if (!t_.empty()) { trig = t_; cl2 = cl2 == "hang" ? "incremental:hang" : "incremental:crash"; } }
+              if (rc2) report_violation(op_site(o.k), cl2, trig, input_json(it.init, src.rec, opi, d1), guard_clause(rc2) + " (no answer within " + std::to_string(src.d.piv == 1 ? SANDBOX_S * 10 : CONFIRM_S) + " s CPU, alone)", "an answer");
             }
           }
           continue;
@@ -986,6 +1148,7 @@ static void run_incr_item(long long item, long long sub_start) {
         if (!c->OK()) {
           rp.input = input_json(it.init, src.rec, opi, d1);
           std::string tr = (o.k == ASSIGN && src.p->current_solution != 0) ? "assigned_from_problem_with_solution_tree" : "none";
+          if (solve_like(o.k)) { std::string t_ = incremental_trigger(*src.p); if (t_.find("declaring") != std::string::npos) tr = t_; }
           rp.viol(std::string("PIP_Problem::") + op_name(o).substr(0, op_name(o).find('(')), "invariant:OK()", tr, "OK() false (nodes of the tree are not owned by the assigned object)", "OK() true");
           good = false; }
         if (good && solve_like(o.k)) {
@@ -1000,6 +1163,8 @@ static void run_incr_item(long long item, long long sub_start) {
               bool fr = fresh_is_right(d1);
               Reporter r2 = rp;
               { std::string it_trig = incremental_trigger(*src.p);
+                // (T3) covers lost conditions only: every wrong answer must be repaired by one change of route in the tree
+                if (it_trig == "resolve_of_tree_with_decision_nodes" && out.status == 1 && !wrong_answers_explained_by_one_condition(c->solution(), d1)) it_trig = "";
                 if (!it_trig.empty()) { if (fr) r2.override_all = it_trig; else r2.override_none = it_trig; } }
               if (fr) r2.input = input_json(it.init, src.rec, opi, d1).substr(0, input_json(it.init, src.rec, opi, d1).size() - 1) + ",\"fresh_problem_from_same_data\":\"right\"}";
               // re-judge with reporting; the site tells incremental-only defects apart
@@ -1186,6 +1351,23 @@ int main(int argc, char** argv) {
     fn = [&](long long item, long long sub_start) { run_fresh_item(item, sub_start); };
     bound = "fresh problems: " + std::to_string(LAYOUTS.size()) + " layouts (dimension " + std::to_string(fresh_mindim) + ".." + std::to_string(fresh_maxdim) + ", <= 2 variables, <= 2 parameters" + (with_big ? ", plus the last parameter as big parameter" : "") +
             "), every row set of size <= " + std::to_string(K) + " of a menu of " + std::to_string(NBASE) + " rows (size <= 2 with a big parameter), 3 cutting x 2 pivot-row strategies, built by the constructor (and once by add_constraint); parameter window {0.." + std::to_string(WINDOW_HI) + "}^k, big parameter at 64/129/260";
+  } else if (mode == "resolve") {
+    int nlay = atoi(ARGS.opt("--layouts", "1").c_str());
+    LAYOUTS.clear();
+    for (int l = 0; l < nlay && l < (int)BOXED.size(); ++l) {
+      const BoxedMenu& bm = BOXED[l];
+      LAYOUTS.push_back(Layout{3, 1u << bm.param, -1});
+      for (size_t i = 0; i < bm.rows.size(); ++i) for (size_t j = i + 1; j < bm.rows.size(); ++j)
+        FRESH.push_back(FreshCase{l, {bm.box1, bm.box2, bm.rows[i], bm.rows[j]}});
+    }
+    { std::vector<FreshCase> sh(FRESH.size()); size_t n = FRESH.size(), stride = 7919;
+      for (size_t i = 0; i < n; ++i) sh[i] = FRESH[(i * stride) % n];
+      if (n > 1 && std::__gcd(stride, n) == 1) FRESH.swap(sh); }
+    nitems = (long long)((FRESH.size() + FRESH_BATCH - 1) / FRESH_BATCH);
+    fn = [&](long long item, long long sub_start) { run_resolve_item(item, sub_start); };
+    bound = "structured re-solves: every boxed one-shot problem (" + std::to_string(LAYOUTS.size()) + " position(s) of p, " + std::to_string(FRESH.size()) + " problems, " + std::to_string(NSTRAT) +
+            " strategy combinations) whose tree has a decision node declaring an artificial parameter above a node declaring its own; solve(), add_constraint(r), solve() for each of " +
+            std::to_string(BOXED[0].extra.size()) + " rows r (p <= 0..6, p >= 1..6, x >= 1, y >= 1, x + y >= p, x + y <= p + 3); parameter window {0.." + std::to_string(WINDOW_HI) + "}";
   } else if (mode == "boxed") {
     int nlay = atoi(ARGS.opt("--layouts", "3").c_str());
     LAYOUTS.clear();
@@ -1229,12 +1411,16 @@ int main(int argc, char** argv) {
     if (ci.mode == 0) {
       std::string desc(ci.desc);
       std::string trig = desc.find("PIVOT_ROW_STRATEGY_MAX_COLUMN") != std::string::npos ? "pivot_row_strategy_max_column" : "none";
-      report_violation("PIP_Problem::solve", clause, trig, J().str("mode", "fresh").raw("problem", desc.empty() ? "{}" : desc).num("item", item).num("sub", sub).done(), signame(sig), "an answer");
+      if (ci.trig == 2 || ci.trig == 3 || ci.trig == 4 || ci.trig == 6) {      // a re-solve of the structured family: state predicate published by the worker
+        trig = trig_name(ci.trig);
+        clause = clause == "hang" ? "incremental:hang" : "incremental:crash";
+      }
+      report_violation("PIP_Problem::solve", clause, trig, J().str("mode", ci.trig >= 2 ? "resolve: solve(); add the LAST constraint; solve()" : "fresh").str("failure", sig == SIGALRM || sig == 1097 ? "hang" : signame(sig)).raw("problem", desc.empty() ? "{}" : desc).num("item", item).num("sub", sub).done(), signame(sig), "an answer");
     } else {
       std::vector<std::string> names, idx;
       for (int q = 0; q < ci.n; ++q) { names.push_back(jstr(op_name(OPS[ci.ops[q]]))); idx.push_back(std::to_string(ci.ops[q])); }
-      std::string trig = ci.trig == 2 ? "pending_row_parameter_column_overwritten_after_nonbasic_variable" : ci.trig == 3 ? "dimensions_added_to_tree_with_artificial_parameters" : ci.trig == 4 ? "resolve_of_tree_with_decision_nodes" : ci.trig == 1 ? "pivot_row_strategy_max_column" : "none";
-      if (ci.trig >= 2) clause = "incremental:wrong-answer";
+      std::string trig = ci.trig == 1 ? "pivot_row_strategy_max_column" : trig_name(ci.trig);
+      if (ci.trig >= 2) clause = clause == "hang" ? "incremental:hang" : "incremental:crash";
       report_violation("PIP_Problem::solve", clause, trig, J().str("mode", "incremental").str("failure", sig == SIGALRM ? "hang" : signame(sig)).num("init", ci.init).raw("init_problem", data_json(INITS[ci.init].d)).arr("history", names).arr("ops", idx).num("item", item).num("sub", sub).done(), signame(sig), "an answer");
     }
   };
